@@ -297,7 +297,7 @@ def sweep():
     finally:
         shutil.rmtree(w, ignore_errors=True)
     # names that are not in `prqlc list-targets` are errors - as a header and as an option
-    for bad_name in ("sql.nosuchdialect", "sql.sql.mssql", "sql.sql.any", "sql.sql.sql.sqlite", "mssql", "sql.", "sql.any.x", "sql.mssql.x", "SQL.mssql", "sql.MSSQL2"):
+    for bad_name in ("sql.nosuchdialect", "sql.sql.mssql", "sql.sql.any", "sql.sql.sql.sqlite", "mssql", "sql.", "sql.any.x", "sql.mssql.x", "SQL.mssql", "sql.MSSQL2", "sql.MsSql", "sql.DuckDB", "sql.POSTGRES", "sql.Sqlite"):
         ok4, bad = replaylib.compile_prql("prql target:%s\n%s" % (bad_name, _PROG), None)
         rec("FS3", "header %s, no option" % bad_name, ok4 or bad.startswith("PANIC"), "an error", bad)
         ok5, bad5 = replaylib.compile_prql(_PROG, bad_name)
